@@ -3237,6 +3237,32 @@ func TestIfExpression(t *testing.T) {
 				end
 			`,
 		},
+		"the else branch of <<: keeps instances of subclasses": {
+			input: `
+				class Foo; end
+				class Bar < Foo; end
+				var a: Foo | Int = Bar()
+				if a <<: Foo
+					var b: exact Foo = a
+				else
+					var b: Int = a
+				end
+			`,
+			err: diagnostic.DiagnosticList{
+				diagnostic.NewFailure(L("<main>", P(144, 8, 19), P(144, 8, 19)), "type `(Foo & ~exact Foo) | Std::Int` cannot be assigned to type `Std::Int`"),
+			},
+		},
+		"the else branch of <<: excludes a sealed class": {
+			input: `
+				sealed class Foo; end
+				var a: Foo | Int = 1
+				if a <<: Foo
+					var b: exact Foo = a
+				else
+					var b: Int = a
+				end
+			`,
+		},
 		"narrow a few variables with &&": {
 			input: `
 				var a: Int? = nil
